@@ -1,8 +1,15 @@
 """Seeded workload generators (input classes of DESIGN.md section 3.5)."""
 import numpy as np
 
-X_CLASSES = ["uniform", "nonuniform", "integer", "epoch", "negative", "small_step"]
-Y_CLASSES = ["gauss", "ties", "constant", "signchange", "plateaus", "tiny", "large", "positive"]
+X_CLASSES = ["uniform", "nonuniform", "integer", "epoch", "negative", "small_step",
+             "jitter", "nano", "unit", "straddle"]
+Y_CLASSES = ["gauss", "ties", "constant", "signchange", "plateaus", "tiny", "large", "positive",
+             "unit01", "near_ties", "pico"]
+# The last classes of each list are "coincidence" classes: almost-uniform grids (inside the default tolerances of
+# numpy.allclose / isclose but not uniform), steps and values below 1e-8 in absolute size (absolute-tolerance traps),
+# data spanning exactly [0, 1], grids with an exact 0 in the interior, neighbouring averages that differ by a tiny
+# non-zero amount.  They exist because "robustness" rewrites with isclose / allclose / truthiness / fast paths only
+# misbehave there.
 
 
 def gen_x(rng, m, cls=None):
@@ -23,9 +30,30 @@ def gen_x(rng, m, cls=None):
     elif cls == "negative":
         gaps = np.clip(rng.lognormal(0, 0.7, max(m - 1, 0)), 0.1, 10.0)
         x = -100.0 + np.concatenate([[0.0], np.cumsum(gaps)])
-    else:  # small_step
+    elif cls == "small_step":
         gaps = rng.uniform(1e-3, 3e-3, max(m - 1, 0))
         x = np.concatenate([[0.0], np.cumsum(gaps)])
+    elif cls == "jitter":
+        step = float(rng.choice([1.0, 3600.0, 0.25, 1e-3]))
+        rel = float(rng.choice([1e-6, 1e-7, 3e-6]))
+        gaps = step * (1.0 + rel * rng.uniform(-1, 1, max(m - 1, 0)))
+        x = float(rng.choice([0.0, 5.0, 1.7e9 if step >= 1 else 2.0])) + np.concatenate([[0.0], np.cumsum(gaps)])
+    elif cls == "nano":
+        gaps = rng.uniform(0.2e-9, 5e-9, max(m - 1, 0))
+        x = float(rng.choice([0.0, 1e-7, -3e-8])) + np.concatenate([[0.0], np.cumsum(gaps)])
+    elif cls == "unit":
+        x = np.linspace(0.0, 1.0, m) if m > 1 else np.array([0.0])
+        if m > 2 and rng.integers(0, 2):
+            inner = np.sort(rng.uniform(0.02, 0.98, m - 2))
+            if np.all(np.diff(inner) > 1e-3):
+                x = np.concatenate([[0.0], inner, [1.0]])
+    else:  # straddle: integers (or halves) with an exact 0 strictly inside
+        k = int(rng.integers(1, max(2, m - 1))) if m > 2 else 0
+        gaps = rng.integers(1, 4, max(m - 1, 0)).astype(float)
+        x = np.concatenate([[0.0], np.cumsum(gaps)])
+        x = x - x[min(k, m - 1)]
+        if rng.integers(0, 3) == 0:
+            x = x / 2.0
     return np.asarray(x, dtype=float), cls
 
 
@@ -48,6 +76,17 @@ def gen_y(rng, m, cls=None):
         y = rng.uniform(0.5, 5, m) * 1e-9
     elif cls == "large":
         y = rng.uniform(-5, 5, m) * 1e8
+    elif cls == "unit01":
+        y = rng.uniform(0, 1, m)
+        if m > 1 and float(np.max(y)) > float(np.min(y)):
+            y = (y - y.min()) / (y.max() - y.min())
+            y[int(np.argmin(y))] = 0.0
+            y[int(np.argmax(y))] = 1.0
+    elif cls == "near_ties":
+        base = rng.integers(0, 4, m).astype(float) * float(rng.choice([1.0, 10.0]))
+        y = base + rng.integers(-3, 4, m) * float(rng.choice([1e-9, 4e-9, 1e-12, 2.0 ** -40]))
+    elif cls == "pico":
+        y = rng.normal(0, 1, m) * 1e-12
     else:
         y = rng.uniform(0.1, 10, m)
     return np.asarray(y, dtype=float), cls
